@@ -385,8 +385,9 @@ def D6(m, R):
     # __iter__ + char iterators
     f = fn('__iter__')
     expr, ret = single_return(f)
-    ok = expr is not None and call_name(expr) == 'iter' and len(expr.args) == 1 and call_name(expr.args[0]) == '_AnsiCharIterator' and \
-        [norm(a) for a in expr.args[0].args] == [f.self_name]
+    it_ = expr.args[0] if expr is not None and call_name(expr) == 'iter' and len(expr.args) == 1 else expr     # the iterator class is its own iterator
+    ok = it_ is not None and call_name(it_) == '_AnsiCharIterator' and [norm(a) for a in it_.args] == [f.self_name] and \
+        (it_ is not expr or _returns_self(m.cls('_AnsiCharIterator').methods.get('__iter__')))
     R.check(ok, f, ret or f.node, '__iter__ iterates _AnsiCharIterator(self)', '__iter__ returns %s' % short(expr), construct='__iter__')
     for cname, wrap in (('_AnsiCharIterator', None), ('_AnsiStrCharIterator', 'AnsiStr')):
         C = m.cls(cname)
@@ -406,31 +407,78 @@ def D6(m, R):
             continue
         ia = 'self.' + idx_attr[0]
         b = nx.body
-        # expected: cursor += 1 ; if cursor >= len(s): raise StopIteration ; return s[cursor]   (start -1)
-        stmts = [norm(x) for x in b]
-        inc = [x for x in b if isinstance(x, ast.AugAssign) and norm(x.target) == ia]
-        if idx_attr[1] != -1 or len(inc) != 1 or const_val(inc[0].value) != 1 or not isinstance(inc[0].op, ast.Add) or b.index(inc[0]) != 0:
-            problems.append('cursor must start at -1 and be advanced by exactly 1 before use (start %s, %s)' % (idx_attr[1], [short(x) for x in inc]))
-        guards = [x for x in b if isinstance(x, ast.If) and any(isinstance(y, ast.Raise) for y in x.body)]
-        if not guards:
-            problems.append('no StopIteration guard')
-        else:
-            t = guards[0].test
-            regs = None
-            if isinstance(t, ast.Compare) and len(t.ops) == 1 and norm(t.left) == ia and re.match(r'^len\(self\.\w+\)$', norm(t.comparators[0])):
-                regs = cmp_regions(t.ops[0])
-            if regs != {'=', '>'}:
-                problems.append('stops when %s; must stop exactly at cursor >= len' % short(t))
-        rets = [x for x in b if isinstance(x, ast.Return)]
-        if rets:
-            rv = rets[-1].value
-            inner = rv.args[0] if (wrap and call_name(rv) == wrap and len(rv.args) == 1) else rv
-            if wrap and inner is rv:
-                problems.append('characters are not re-wrapped in %s' % wrap)
-            if not (isinstance(inner, ast.Subscript) and re.match(r'^self\.\w+$', norm(inner.value)) and norm(inner.slice) == ia):
-                problems.append('yields %s, not the character at the cursor' % short(rv))
-        else:
-            problems.append('returns nothing')
+        # symbolic run of the straight-line body: the cursor c becomes c + 1 before it is used; StopIteration exactly when c + 1 >= len(s);
+        # the value is s[c + 1]; the cursor starts at -1
+        from .P_more import Sym, _sym_eval
+        env = {ia: Sym({'c': 1})}
+        guard_seen = False
+        ret_seen = False
+        if idx_attr[1] != -1:
+            problems.append('the cursor starts at %s, not -1' % idx_attr[1])
+        try:
+            for st in b:
+                if isinstance(st, ast.AugAssign) and isinstance(st.op, (ast.Add, ast.Sub)):
+                    d = _sym_eval(st.value, env)
+                    cur = _sym_eval(st.target, env)
+                    env[norm(st.target)] = cur + d if isinstance(st.op, ast.Add) else cur - d
+                elif isinstance(st, ast.Assign) and len(st.targets) == 1 and isinstance(st.targets[0], (ast.Name, ast.Attribute)):
+                    env[norm(st.targets[0])] = _sym_eval(st.value, env)
+                elif isinstance(st, ast.If) and any(isinstance(y, ast.Raise) for y in st.body) and not st.orelse:
+                    t = st.test
+                    neg = False
+                    while isinstance(t, ast.UnaryOp) and isinstance(t.op, ast.Not):
+                        neg, t = not neg, t.operand
+                    if not (isinstance(t, ast.Compare) and len(t.ops) == 1):
+                        raise Undecided('stop test %s' % short(st.test))
+                    l_, r_ = t.left, t.comparators[0]
+                    swapped = re.match(r'^len\(self\.\w+\)', norm(l_)) is not None
+                    a_, len_ = (r_, l_) if swapped else (l_, r_)
+                    # len side may carry a constant: len(s) - 1
+                    lt = norm(len_)
+                    mm = re.match(r'^len\(self\.\w+\)(?: ([+-]) (\d+))?$', lt)
+                    if not mm:
+                        raise Undecided('stop test %s' % short(st.test))
+                    off = int(mm.group(2) or 0) * (1 if mm.group(1) == '+' else -1)
+                    x = _sym_eval(a_, env) - Sym(c=off)           # compared with len(s)
+                    regs = cmp_regions(t.ops[0], swapped)
+                    if neg:
+                        regs = {'<', '=', '>'} - regs
+                    # x = c + k: "x in regs of len"; expected: stop iff c + 1 >= len
+                    k = (x - Sym({'c': 1}))
+                    if k.t:
+                        raise Undecided('stop test %s' % short(st.test))
+                    shift = k.c - 1           # x = (c + 1) + shift
+                    want = {0: {'=', '>'}, -1: None, 1: {'>'}}.get(shift)      # (c+1) >= len  <=>  (c+2) > len
+                    if want is None or regs != want:
+                        problems.append('stops when %s; must stop exactly when the advanced cursor >= len' % short(st.test))
+                    if not any(isinstance(y, ast.Raise) and 'StopIteration' in norm(y) for y in st.body):
+                        problems.append('the stop is not StopIteration')
+                    guard_seen = True
+                elif isinstance(st, ast.Return):
+                    rv = st.value
+                    inner = rv.args[0] if (wrap and call_name(rv) == wrap and len(rv.args) == 1) else rv
+                    if wrap and inner is rv:
+                        problems.append('characters are not re-wrapped in %s' % wrap)
+                    if not (isinstance(inner, ast.Subscript) and re.match(r'^self\.\w+$', norm(inner.value))) or isinstance(inner.slice, ast.Slice):
+                        problems.append('yields %s, not the character at the cursor' % short(rv))
+                    else:
+                        at = _sym_eval(inner.slice, env)
+                        if at != Sym({'c': 1}, 1):
+                            problems.append('yields the character at %r (c = cursor before the call); expected c + 1' % at)
+                        if env[ia] != Sym({'c': 1}, 1):
+                            problems.append('the cursor is %r after a step; expected c + 1' % env[ia])
+                        if not guard_seen:
+                            problems.append('no StopIteration guard before the character is read')
+                    ret_seen = True
+                elif isinstance(st, ast.Expr) and isinstance(st.value, ast.Constant):
+                    pass
+                else:
+                    raise Undecided('statement %s' % short(st))
+            if not ret_seen:
+                problems.append('returns nothing')
+        except Undecided as ex:
+            R.undecided(nx, nx.node, '__next__ not interpreted: %s' % ex, construct=cons)
+            continue
         R.check(not problems, nx, nx.node, 'yields s[0], s[1], ... until len(s)', '; '.join(problems), construct=cons)
     # assign_str
     f = fn('assign_str')
@@ -440,10 +488,15 @@ def D6(m, R):
     txt = '%s.%s' % (selfn, TEXT)
     tbl = '%s.%s' % (selfn, TABLE)
     grow = shrink = None
+    from ..shapes import local_aliases, canon
+    aal = local_aliases(f)      # cached lengths: sound here because the text is assigned last (checked below)
+
+    def cn(x):
+        return canon(x, aal)
     for n in f.walk():
         if isinstance(n, ast.If) and isinstance(n.test, ast.Compare) and len(n.test.ops) == 1 and \
-                {norm(n.test.left), norm(n.test.comparators[0])} == {'len(%s)' % s, 'len(%s)' % txt}:
-            swapped = norm(n.test.left) != 'len(%s)' % s
+                {cn(n.test.left), cn(n.test.comparators[0])} == {'len(%s)' % s, 'len(%s)' % txt}:
+            swapped = cn(n.test.left) != 'len(%s)' % s
             regs = cmp_regions(n.test.ops[0], swapped)
             # equal lengths may go either way: moving the end point onto itself / clipping to the full length change nothing
             if regs in ({'>'}, {'>', '='}):
@@ -454,8 +507,8 @@ def D6(m, R):
     if grow is None:
         problems.append('no branch for a longer string')
     else:
-        mv = [x for x in ast.walk(grow) if isinstance(x, ast.Assign) and norm(x.targets[0]) == '%s[len(%s)]' % (tbl, s) and
-              norm(x.value) == '%s.pop(len(%s))' % (tbl, txt)]
+        mv = [x for x in ast.walk(grow) if isinstance(x, ast.Assign) and cn(x.targets[0]) == '%s[len(%s)]' % (tbl, s) and
+              cn(x.value) == '%s.pop(len(%s))' % (tbl, txt)]
         if not mv or not any(mv[0] in ast.walk(b_) for b_ in grow.body):
             problems.append('growing does not move the point at the old length to the new length')
     if shrink is None:
@@ -465,6 +518,8 @@ def D6(m, R):
         okc = False
         for c in cl:
             got, _ = _bound_texts(c, fn('clip'))
+            if got.get('end') in aal:
+                got['end'] = cn(aal[got['end']])
             okc = got.get('end') == 'len(%s)' % s and got.get('inplace') == 'True' and got.get('start') in (None, '0', 'None')
         if not okc:
             problems.append('shrinking does not clip(end=len(s), inplace=True)')
@@ -677,22 +732,52 @@ def D6(m, R):
             if len(first) != 1 or [norm(a_) for a_ in first[0].value.args] != [old] or not norm(first[0].value.func.value).endswith('.' + TEXT):
                 problems.append('initial search is %s, expected TEXT.find(%s)' % ([short(n) for n in first], old))
         R.check(not problems, f, lp, 'replace: obj = obj[:idx] + repl + obj[idx+len(old):] with the three replacement forms', '; '.join(problems), construct='replace rebuild')
-        # the text changes only through the rebuild (slices + concatenation carry the settings along)
-        raw = []
+        # the text changes only through the rebuild (slices + concatenation carry the settings along); the one other write is the
+        # in-place hand-over `self.TEXT = obj.TEXT; self.TABLE = obj.TABLE` of the rebuilt object
+        work = norm(rebuild[0].targets[0]) if len(rebuild) == 1 else None
+        raw, transfer = [], {}
         for n in f.walk():
             tg = n.targets[0] if isinstance(n, ast.Assign) else n.target if isinstance(n, ast.AugAssign) else None
-            if isinstance(tg, ast.Attribute) and tg.attr == TEXT:
-                inpl = any(isinstance(p_, ast.If) and is_name(p_.test, inplace) for p_ in _parents(n))
-                if not (inpl and isinstance(n, ast.Assign) and norm(n.value).endswith('.' + TEXT) and is_name(tg.value, selfn)):
+            if isinstance(tg, ast.Attribute) and tg.attr in (TEXT, TABLE):
+                if isinstance(n, ast.Assign) and is_name(tg.value, selfn) and work is not None and norm(n.value) == '%s.%s' % (work, tg.attr):
+                    transfer[tg.attr] = n
+                elif tg.attr == TEXT:
                     raw.append(n)
         R.check(not raw, f, raw[0] if raw else lp, 'the text is only ever changed by rebuilding the string from slices',
                 '`%s` rewrites the text directly: the settings stay where they were, so replaced characters keep the settings of the old ones' % (short(raw[0]) if raw else ''),
                 construct='replace raw text write')
-        # in-place transfer
-        tail = [n for n in f.body if isinstance(n, ast.If) and is_name(n.test, inplace)]
-        ok = bool(tail) and sorted(norm(x.targets[0]) for x in tail[0].body if isinstance(x, ast.Assign)) == sorted(['%s.%s' % (selfn, TEXT), '%s.%s' % (selfn, TABLE)]) \
-            and any(isinstance(x, ast.Return) and is_name(x.value, selfn) for x in tail[0].body)
-        R.check(ok, f, tail[0] if tail else f.node, 'in place: the receiver takes over text and table of the rebuilt object and is returned', construct='replace inplace')
+        # in-place hand-over, by paths: with inplace=True every return is the receiver after both assignments; with inplace=False none is reached
+        from ..cfg import CFG, paths, PathExplosion
+        cfg_ = CFG(f.node, f.body)
+        problems = []
+        try:
+            for flag in (True, False):
+                for pth, _e in paths(cfg_, cfg_.entry, None, env0={inplace: flag}, max_visits=1, limit=100000):
+                    if pth[-1].kind != 'exit':
+                        continue
+                    done = {a for a, n_ in transfer.items() if any(nd.stmt is n_ for nd in pth)}
+                    ret = next((nd for nd in reversed(pth) if nd.kind == 'return'), None)
+                    if flag:
+                        if ret is not None and is_name(ret.stmt.value, selfn) and done != {TEXT, TABLE} and work != selfn:
+                            # returning the receiver untouched is right only when nothing was replaced: the working object is still the receiver's copy
+                            touched = any(nd.stmt is rebuild[0] for nd in pth) if len(rebuild) == 1 else True
+                            if touched:
+                                problems.append('with inplace=True a path returns the receiver without taking over %s of the rebuilt object' % sorted({TEXT, TABLE} - done))
+                        if ret is not None and not is_name(ret.stmt.value, selfn) and any(nd.stmt is rebuild[0] for nd in pth if len(rebuild) == 1):
+                            problems.append('with inplace=True a path returns %s instead of the receiver' % norm(ret.stmt.value))
+                    elif done:
+                        problems.append('with inplace=False the receiver takes over %s' % sorted(done))
+                    if problems:
+                        break
+                if problems:
+                    break
+        except PathExplosion:
+            problems = None
+        if problems is None:
+            R.undecided(f, f.node, 'too many paths through replace', construct='replace inplace')
+        else:
+            R.check(not problems, f, f.node, 'in place: the receiver takes over text and table of the rebuilt object and is returned', '; '.join(problems[:1]),
+                    construct='replace inplace')
     # SCRUB: integer runs -> parse_graphic_sequence(run, True) at both sites; name lookup normalisation
     P = m.cls(ro.POINT)
     f = m.fn('%s.%s' % (ro.POINT, ro.SCRUB))
@@ -723,6 +808,14 @@ def D6(m, R):
     ok = bool(vb) and const_val(vb[0].test.args[0]) == '[' and any(
         isinstance(x, ast.Return) and norm(x.value) == '[AnsiSetting(%s[1:])]' % fs.params[0] for x in vb[0].body)
     R.check(ok, fs, vb[0] if vb else fs.node, "a string starting with '[' is used verbatim without the bracket", construct='scrub verbatim')
+
+
+def _returns_self(f):
+    """an __iter__ that is `return self`"""
+    if f is None:
+        return False
+    rets = [n for n in f.walk() if isinstance(n, ast.Return)]
+    return len(rets) == 1 and is_name(rets[0].value, f.self_name)
 
 
 def _parents(n):
